@@ -238,7 +238,7 @@ func execC09(spec *RunSpec) *Result {
 			fspec.Files = freshFiles(spec.Files, snap)
 			alone := runAlone(fspec, op, refKernel())
 			res.addStat("cases", 1)
-			if !sameResult(o, alone) && o.Panic == "" && !o.Overrun {
+			if !sameOutput(o, alone) && o.Panic == "" && !o.Overrun {
 				res.violate("C09", "differs-from-alone", "concurrent result differs from running alone via "+op.Entry, "%s returns something else than when run alone:\n  concurrent: %s\n  alone:      %s", what, o, alone)
 			}
 		} else {
@@ -261,7 +261,7 @@ func execC09(spec *RunSpec) *Result {
 	for k, p := range cr.postOp {
 		fresh := runAlone(spec, p, refKernel())
 		res.addStat("cases", 1)
-		if !sameResult(cr.post[k], fresh) {
+		if !sameOutput(cr.post[k], fresh) {
 			res.violate("C09", "engine-corrupted", "engine renders differently after concurrent use", "sequential render of %s after the tasks differs from a fresh engine:\n  shared engine: %s\n  fresh:         %s", p.File, cr.post[k], fresh)
 		}
 	}
